@@ -69,15 +69,17 @@ PROPS['C16'] = {
     'lean_imports': ['EmmetProps.C16', 'EmmetProps.C09', 'EmmetProps.C10'],
     'theorems': [
         thm('EmmetProps.C16_html_scan', 'every string, any special-tag table: the HTML scanner model is total and every reported tag is an in-range slice starting with < and ending with >, in increasing non-overlapping order'),
+        thm('EmmetProps.C16_css_scan', 'every source (unbalanced braces, unterminated strings and comments included): the CSS scanner model is total and every reported token has 0 <= start <= end <= len(source), its delimiter is -1 or an index into the source'),
+        thm('EmmetProps.C16_split_value', 'every value: split_value reports only non-empty ranges 0 <= start < end <= len(value)'),
         thm('EmmetProps.C09_match', 'match = innermost enclosing element (used with C09_outward for: match() equals the first entry of balanced_outward())'),
         thm('EmmetProps.C09_outward', 'balanced_outward = all strictly containing elements innermost first (successive entries contain each other and the position)'),
         thm('EmmetProps.C09_inward', 'balanced_inward = element at the position + first-child chain (successive entries lie inside each other)'),
     ],
     'domains': ['dom_html', 'dom_css'],
     'rule': 'all strings up to length 3 (quick) / 4 (thorough) over the markup alphabet `< > / = " \' a b - ! [ ] ? space` and the stylesheet alphabet `{ } : ; ( ) " \' \\ / * a - space newline`, random fragment mixes, mutated generated documents; all positions -1..len+1; html and xml mode; non-trivial = source producing at least one scanner event; distinct = distinct source',
-    'explanation': 'HTML scan well-formedness is proved for all strings; the CSS range clauses, attribute parser and value splitter are decided by correspondence with the model plus the range oracle on the implementation (CSS range theorems are future work).',
-    'level_text': 'Lean 4 theorem for the HTML scanner over ALL strings (total, in-range, <...> shaped, ordered events) and layer-B nesting theorems for the HTML balance functions; the CSS clauses (0 <= start <= end <= len for scan, match, balance functions, split_value) are at correspondence level: model = code on every explored input and the range oracle holds on the implementation.',
-    'level_note': 'Trusted: Lean kernel + standard axioms; hand-written scanner / matcher models. CSS range well-formedness is not yet a theorem (partial): it is checked exhaustively for short strings on the implementation.',
+    'explanation': 'Scanner well-formedness is proved for all strings for the HTML scanner, the CSS scanner and split_value; the ranges computed from the events by the CSS match / balance functions and the attribute parser are decided by correspondence with the model plus the range oracle on the implementation.',
+    'level_text': 'Lean 4 theorems over ALL strings for the HTML scanner (total, in-range, <...> shaped, ordered events), the CSS scanner (total, 0 <= start <= end <= len, delimiter in range) and split_value (non-empty in-range tokens), plus layer-B nesting theorems for the HTML balance functions; the ranges the CSS match / balance functions derive from the events and the HTML attribute parser are at correspondence level: model = code on every explored input and the range oracle holds on the implementation.',
+    'level_note': 'Trusted: Lean kernel + standard axioms; hand-written scanner / matcher models. Range well-formedness of CSS match() / balanced_*() results and of attributes() is not yet a theorem (partial): it is checked exhaustively for short strings on the implementation.',
     'assumptions': [CORR],
 }
 
